@@ -75,6 +75,8 @@ class Node(object):
                     i = ren["varnames"] % len(vs)
                     vs[i] = vs[i] + "\udc81"
                     kw["co_varnames"] = tuple(vs)
+            if g.get("firstlineno") is not None:
+                kw["co_firstlineno"] = g["firstlineno"]
             lt = g.get("line_tail")
             if lt is not None:
                 # a hand-made trailing line-table entry past the last instruction (decodes as _additional_line):
